@@ -65,12 +65,12 @@ def make_cb(it, prog, cls, log=False, **over):
 
 def gate_decisions(p):
     """Outcomes of decisions whose condition is  epoch % period == 0."""
-    want = T.app("cmp_Eq", T.app("mod", T.sym("epoch"), T.sym("period")), T.ZERO)
+    wants = [T.app("cmp_Eq", T.app("mod", T.sym(e), T.sym("period")), T.ZERO) for e in ("epoch", "epoch2")]
     out = []
     for c in p.conds:
         v = c[3] if len(c) > 3 else None
         t = getattr(v, "term", None)
-        if t is not None and t == want:
+        if t is not None and t in wants:
             out.append(c[2])
     return out
 
@@ -146,6 +146,8 @@ def run(ck):
             def th(it):
                 cb = make_cb(it, prog, cls, log=True)
                 st = unk("nn_state")
+                ep0 = VNum("int", T.sym("epoch2"), nonneg=True)
+                call(it, cb, "on_epoch_end", st, ep0)
                 ep = epoch()
                 call(it, cb, "on_epoch_end", st, ep)
                 pv = cb.inst.attrs.get("past_values")
@@ -156,6 +158,7 @@ def run(ck):
                     "get": call(it, cb, "get_value", VConst(name)),
                     "get-1": call(it, cb, "get_value", VConst(name), VConst(-1)),
                     "get0": call(it, cb, "get_value", VConst(name), VConst(0)),
+                    "get-2": call(it, cb, "get_value", VConst(name), VConst(-2)),
                     "epochs": it.get_attr(cb, "epochs", None),
                     "names": it.get_attr(cb, "names", None),
                     "attr": it.get_attr(cb, name, None),
@@ -171,11 +174,12 @@ def run(ck):
                 it = p.interp
                 cb, ep, pv, last, acc, name, csvw = p.value
                 items = pv.obj.items if isinstance(pv, VList) else None
-                ok = items is not None and len(items) == 1 and isinstance(items[0], VTuple) and len(items[0].items) == 2 and items[0].items[0] is ep
-                ck.check(ok, "C17.R2", cls + ":one (epoch, values) record per evaluation", m.site(), "an evaluation does not append exactly one (epoch, values) tuple to past_values")
+                ok = items is not None and len(items) == 2 and all(isinstance(x, VTuple) and len(x.items) == 2 for x in items) and items[1].items[0] is ep and items[0].items[0] is not ep
+                ck.check(ok, "C17.R2", cls + ":one (epoch, values) record per evaluation", m.site(), "two evaluations do not append exactly one (epoch, values) tuple each, in order, to past_values")
                 if not ok:
                     continue
-                vals = items[0].items[1]
+                vals = items[1].items[1]
+                vals0 = items[0].items[1]
                 okl = isinstance(last, VDict) and isinstance(vals, VDict) and last.obj.items is not None and vals.obj.items is not None and \
                     list(last.obj.items.keys()) == list(vals.obj.items.keys()) and all(last.obj.items[k] is vals.obj.items[k] for k in vals.obj.items)
                 ck.check(okl, "C17.R2", cls + ":last == recorded values", m.site(), "`last` does not hold the values recorded for this epoch")
@@ -184,22 +188,24 @@ def run(ck):
                 ck.check(keys == want_keys, "C17.R2", cls + ":one value per tracked name", m.site(), "recorded names %s, expected %s" % (keys, want_keys))
                 v = vals.obj.items[name]
                 ok_, ln = const_of(acc["len"])
-                ck.check(ok_ and ln == 1, "C17.R2", cls + ":__len__", c.find_method("__len__").site(), "len() is %s after one evaluation" % (acc["len"],))
-                for k in ("get", "get-1", "get0"):
-                    ck.check(acc[k] is v, "C17.R2", cls + ":get_value/" + k, c.find_method("get_value").site(), "get_value does not return the recorded value of the requested evaluation")
+                ck.check(ok_ and ln == 2, "C17.R2", cls + ":__len__", c.find_method("__len__").site(), "len() is %s after two evaluations" % (acc["len"],))
+                v0 = vals0.obj.items[name] if isinstance(vals0, VDict) and vals0.obj.items else None
+                for k, wv in (("get", v), ("get-1", v), ("get0", v0), ("get-2", v0)):
+                    ck.check(acc[k] is wv, "C17.R2", cls + ":get_value/" + k, c.find_method("get_value").site(),
+                             "get_value(%s) does not return the recorded value of the requested evaluation (default = most recent)" % k)
                 nm = it.concrete_items(acc["names"])
                 ck.check(nm is not None and [x.value for x in nm] == want_keys, "C17.R2", cls + ":names", m.site(), "names accessor disagrees with the recorded keys")
                 et = acc["epochs"].term if isinstance(acc["epochs"], VTens) else None
-                ck.check(et == T.stack0(T.sym("epoch")), "C17.R2", cls + ":epochs", m.site(), "epochs accessor is not the list of recorded epochs: %r" % (et,))
+                ck.check(et == T.stack0(T.sym("epoch2"), T.sym("epoch")), "C17.R2", cls + ":epochs", m.site(), "epochs accessor is not the list of recorded epochs in order: %r" % (et,))
                 if cls == "MetricEvaluator":
                     for k in ("attr", "item"):
                         a = acc[k]
-                        ck.check(isinstance(a, VTens) and a.shape == (1,), "C17.R2", cls + ":__getattr__/__getitem__ " + k, m.site(), "per-name value array has shape %s after one evaluation" % (getattr(a, "shape", None),))
+                        ck.check(isinstance(a, VTens) and a.shape == (2,), "C17.R2", cls + ":__getattr__/__getitem__ " + k, m.site(), "per-name value array has shape %s after two evaluations" % (getattr(a, "shape", None),))
                 else:
                     for k in ("attr", "item"):
                         a = acc[k]
                         okd = isinstance(a, VObj) and a.inst.cls is prog.cls("ObservableStatistics") and isinstance(a.inst.attrs.get("data"), VList) and \
-                            a.inst.attrs["data"].obj.items is not None and len(a.inst.attrs["data"].obj.items) == 1 and a.inst.attrs["data"].obj.items[0] is v
+                            a.inst.attrs["data"].obj.items is not None and len(a.inst.attrs["data"].obj.items) == 2 and a.inst.attrs["data"].obj.items[1] is v and a.inst.attrs["data"].obj.items[0] is v0
                         ck.check(okd, "C17.R2", cls + ":__getattr__/__getitem__ " + k, m.site(), "per-observable accessor does not wrap the recorded statistics")
                 pv2, last2 = cb.inst.attrs.get("past_values"), cb.inst.attrs.get("last")
                 ck.check(isinstance(pv2, VList) and pv2.obj.items == [] and isinstance(last2, VDict) and last2.obj.items == {}, "C17.R2", cls + ":clear_history", c.find_method("clear_history").site(),
